@@ -149,11 +149,20 @@ def check_partition_cases(ctx, cases, hcs):
             if p.returncode != 0:
                 raise Violation(f"C11:partition:harness-crash:{'omp' if openmp else 'seq'}",
                                 f"exit {p.returncode}: {p.stderr[-500:]}")
-            outs = [json.loads(line) for line in p.stdout.splitlines() if line.strip()]
+            import re as _re
+
+            # printf prints non-finite values as nan / -nan / inf: make them JSON
+            outs = [json.loads(_re.sub(r"-?nan|-?inf", "NaN", line))
+                    for line in p.stdout.splitlines() if line.strip()]
             if len(outs) != len(cases):
                 raise HarnessError("partition harness output truncated")
             for c, o in zip(cases, outs):
                 check_partition_output(ctx, c, o, openmp, omp_threads)
+
+
+def far(x, y, tol):
+    """NaN-safe: a non-finite value is never close to anything."""
+    return not (abs(x - y) <= tol)
 
 
 def check_partition_output(ctx, case, out, openmp, omp_threads):
@@ -176,22 +185,22 @@ def check_partition_output(ctx, case, out, openmp, omp_threads):
                           "range_not_divisible" if jobs and idx_max % max(jobs, 1) else "range_divisible"])
         key = {"case": case, "hc": hc, "openmp": openmp}
         if hc == 0:
-            if abs(val - ref) > tol:
+            if far(val, ref, tol):
                 raise Violation("C11:partition:hardware_concurrency-0:permanent",
                                 f"hardware_concurrency()==0 (allowed by the standard): permanent "
                                 f"{val} instead of {ref} for rows={case['rows']} cols={case['cols']}")
             continue
-        if abs(val - ref) > tol:
+        if far(val, ref, tol):
             raise Violation("C11:partition:permanent-vs-definition",
                             f"hc={hc} jobs={jobs} idx_max={idx_max}: {val} vs {ref} "
                             f"(rows={case['rows']} cols={case['cols']}) {json.dumps(key)[:300]}")
         if base is None:
             base = (val, lap)
         else:
-            if abs(val - base[0]) > tol:
+            if far(val, base[0], tol):
                 raise Violation("C11:partition:permanent-depends-on-job-count",
                                 f"hc={hc}: {val} vs {base[0]} at hc of the first run")
-            if len(lap) != len(base[1]) or any(abs(x - y) > tol for x, y in zip(lap, base[1])):
+            if len(lap) != len(base[1]) or any(far(x, y, tol) for x, y in zip(lap, base[1])):
                 raise Violation("C11:partition:laplace-depends-on-job-count",
                                 f"hc={hc} jobs={jobs} idx_max={idx_max}: {lap} vs {base[1]} "
                                 f"(rows={case['rows']} cols={case['cols']})")
@@ -475,10 +484,38 @@ def dask_case(draw):
                                     st.integers(1, 1100))),
             "seed": draw(st.one_of(st.sampled_from([0, 1, 2**31 - 1, 2**63]),
                                    st.integers(0, 2**32))),
-            "via_setter": draw(st.integers(0, 3)) == 0}
+            "via_setter": draw(st.integers(0, 3)) == 0,
+            "family": draw(st.sampled_from(["P", "P", "G"])),
+            "gmeas": draw(st.sampled_from(["pnm", "threshold", "threshold_tor"])),
+            "grs": [draw(st.sampled_from([0.3, 0.5, 0.7])) for _ in range(4)]}
+
+
+def dask_run_gaussian(case, use_dask):
+    d = case["d"]
+    u = progs.haar_unitary(d, case["useed"], case["ukind"])
+    with pq.Program() as prog:
+        pq.Q() | pq.Vacuum()
+        for m in range(d):
+            pq.Q(m) | pq.Squeezing(case["grs"][m], 0.3 * m)
+        pq.Q(*range(d)) | pq.Interferometer(u)
+        meas = pq.ParticleNumberMeasurement() if case["gmeas"] == "pnm" else \
+            pq.ThresholdMeasurement()
+        pq.Q(*(case["modes"] if case["gmeas"] == "pnm" else sorted(case["modes"]))) | meas
+    kw = dict(use_dask=use_dask, measurement_cutoff=4,
+              use_torontonian=case["gmeas"] == "threshold_tor")
+    if case["via_setter"]:
+        config = pq.Config(**kw)
+        config.seed_sequence = case["seed"]
+    else:
+        config = pq.Config(seed_sequence=case["seed"], **kw)
+    shots = min(case["shots"], 300)
+    res = pq.GaussianSimulator(d=d, config=config).execute(prog, shots=shots)
+    return [tuple(int(x) for x in s) for s in res.samples]
 
 
 def dask_run(case, use_dask):
+    if case.get("family") == "G":
+        return dask_run_gaussian(case, use_dask)
     d, occ = case["d"], case["occ"]
     u = progs.haar_unitary(d, case["useed"], case["ukind"])
     with pq.Program() as prog:
@@ -512,21 +549,24 @@ def prop_dask(case, ctx):
         par = dask_run(case, True)
         par2 = dask_run(case, True)
     shots = case["shots"]
+    fam = case.get("family", "P")
+    if fam == "G":
+        shots = min(shots, 300)
     varied = len(set(seq)) > 1
     ctx.case(case, varied,
-             ["dask_shots_" + ("le64" if shots <= 64 else "le256" if shots <= 256 else
+             [f"dask_family_{fam}", "dask_shots_" + ("le64" if shots <= 64 else "le256" if shots <= 256 else
                                "le512" if shots <= 512 else "gt512"),
               "dask_loss_" + case["loss"],
               "dask_overlap_" + str(case["overlap"])]
              + (["seed_via_setter"] if case["via_setter"] else []))
     if len(par) != shots or len(seq) != shots:
-        raise Violation("C11:dask:P:sample-count",
+        raise Violation(f"C11:dask:{fam}:sample-count",
                         f"{shots} shots requested, sequential gives {len(seq)}, dask {len(par)}")
     # known finding: with uniform transmission < 1 the loss decisions are drawn from the
     # generator shared by all shots instead of the per-shot one, so concurrently running
     # dask tasks race for it; every other passive sampling path is judged strictly
     eff = [case["etas"][0]] * case["d"] if case["loss"] == "uniform" else case["etas"]
-    if case["loss"] != "none" and len(set(eff)) == 1 and eff[0] < 1.0:
+    if fam == "P" and case["loss"] != "none" and len(set(eff)) == 1 and eff[0] < 1.0:
         ctx.count("dask_uniformly_lossy_region")
         if par != seq or par2 != par:
             raise Violation("C11:dask:P:uniformly-lossy:shared-generator-race",
@@ -535,11 +575,11 @@ def prop_dask(case, ctx):
         return
     if par != seq:
         i = next(i for i, (x, y) in enumerate(zip(par, seq)) if x != y)
-        raise Violation("C11:dask:P:samples-differ-from-sequential",
+        raise Violation(f"C11:dask:{fam}:samples-differ-from-sequential",
                         f"seed {case['seed']}, {shots} shots: first difference at shot {i}: "
                         f"dask {par[i]}, sequential {seq[i]}")
     if par2 != par:
-        raise Violation("C11:dask:P:samples-differ-between-runs",
+        raise Violation(f"C11:dask:{fam}:samples-differ-between-runs",
                         f"seed {case['seed']}, {shots} shots: repeated use_dask=True runs differ")
 
 
